@@ -86,6 +86,7 @@ StepBegin(cfg) ==
 RampUpdate(it, value) ==
   /\ pc = "Ramp"
   /\ it \in DOMAIN scfg.ramp /\ it \notin ramped
+  /\ i \in 1..Len(scfg.ramp[it])            \* (total also on re-synchronised trace states)
   /\ value = scfg.ramp[it][i]
   /\ ramped' = ramped \cup {it}
   /\ UNCHANGED <<pc, mode, job, scfg, j, i, k, maxiter, x, fieldver, x0ver, kin, trial, committed,
